@@ -328,12 +328,13 @@ def _is_iterable_of_pairs(val: t.Any) -> tuple[bool, t.Any]:
 
     if inspection.issequencetype(cls):
         peek = next(iter(val), ())
-        is_pairs = inspection.iscollectiontype(peek.__class__) and len(peek) == 2
+        # A pair is an ordered 2-sequence: a 2-key mapping, a set or 2 characters are not.
+        is_pairs = isinstance(peek, (tuple, list)) and len(peek) == 2
         return is_pairs, val
 
     it = peekable(val)
     peek = it.peek(())
-    is_pairs = inspection.iscollectiontype(peek.__class__) and len(peek) == 2
+    is_pairs = isinstance(peek, (tuple, list)) and len(peek) == 2
     return is_pairs, it
 
 
